@@ -81,6 +81,7 @@ def meta(tier):
     q = tier == "quick"
     return dict(bounds=dict(programs=len([p for p in PG.base_programs() if _fixable(p)]), wrap="token boundaries, token interiors, literal interiors (at column 72)" + (" (spread subset)" if q else ""),
                             continuation_lines="1 (2 in the 'two' variant)", comment_lines="0-1 between statement lines",
+                            long_literal="fix_longlit: a literal over three physical lines (columns 7-72 of the middle line all literal text), opened on line 1 or on the first continuation line, or closed and re-opened there; two symbolic printable characters in the first / middle / last segment; comment lines (C c * !) between the lines; comments kept or ignored",
                             symbolic="continuation mark (printable, not blank/0), comment introducer (C c * !) and first comment character, or one lexeme hole"),
                 assumptions=["outside the claim: a first statement starting with c/C/*/! in column 1 (a comment by definition); fixed-form lines ending in '&' (documented heuristic)",
                              "statements with a construct name are not wrapped (label/name prefix handling is C12)"],
